@@ -43,21 +43,26 @@ fn split_mark_to_base_subtable(graph: &mut Graph, subtable: ObjectId) -> Option<
         let info = &class_info[i as usize];
         partial_coverage_size += u16::RAW_BYTE_LEN * info.marks.len();
 
-        let mut accumulated_delta =
+        let records_size =
             // the records for the marks in this class
             rgpos::MarkRecord::RAW_BYTE_LEN * info.marks.len()
             // plus an offset in each base record for this class
             + Offset16::RAW_BYTE_LEN * base_count as usize;
-        accumulated_delta += compute_subgraph_size(&info.children, graph, &mut visited);
+        let mut accumulated_delta =
+            records_size + compute_subgraph_size(&info.children, graph, &mut visited);
         accumulated += accumulated_delta;
         let total = accumulated + partial_coverage_size;
 
         if total > super::MAX_TABLE_SIZE {
             log::trace!("adding split at {i}");
             split_points.push(i as usize);
+            visited.clear();
+            // anchors this class shares with the previous subtable were not
+            // counted above, but they are new in the next subtable
+            accumulated_delta =
+                records_size + compute_subgraph_size(&info.children, graph, &mut visited);
             accumulated = min_subtable_size + accumulated_delta;
             partial_coverage_size = 4 + u16::RAW_BYTE_LEN * info.marks.len();
-            visited.clear();
         }
     }
 
